@@ -92,10 +92,18 @@ fn quiescent_check_settled(ex: &Exec, mon: &MonDir, what: &str, rep: &mut Report
         // orphan files only (nothing missing, .managed.json consistent): some thread that has
         // just finished (merge thread, indexing worker of a replaced writer) may still hold the
         // segment in the index inventory for a moment
-        let only_orphans = !errs.is_empty() && errs.iter().all(|(s, _)| s.starts_with("quiescent:orphan-files:"));
+        // (a merge thread that is creating its files right now also shows as a file that
+        // .managed.json lists - it is registered first - but that does not exist yet)
+        let only_orphans = !errs.is_empty()
+            && errs.iter().all(|(s, _)| {
+                s.starts_with("quiescent:orphan-files:")
+                    || s == "quiescent:managed.json-lists-missing-files"
+                    || s == "quiescent:managed.json-differs-both-ways"
+            });
         if !only_orphans {
             break;
         }
+        let _ = mon.wait_no_merge_in_flight(std::time::Duration::from_secs(10));
         let by_merge = errs.iter().all(|(_, d)| d["all_merge_created"] == json!(true));
         rep.count(
             if by_merge { "quiescent_recheck_for_finishing_merge_thread" } else { "quiescent_recheck_for_files_of_segments_still_in_the_inventory" },
@@ -202,8 +210,14 @@ fn history_case(case: u64, rng: &mut Rng, rep: &mut Report) {
     let mut policy_on = cfg.merge_policy;
     for (i, op) in ops.iter().enumerate() {
         ex.step(op);
-        if let Op::SetPolicy(on) = op {
-            policy_on = *on;
+        match op {
+            Op::SetPolicy(on) => policy_on = *on,
+            // rollback() / abort() replace the writer inside tantivy: the replacement comes with
+            // the DEFAULT merge policy (a log merge policy), whatever was set before
+            Op::Rollback | Op::PrepCommit { abort: true, .. } => policy_on = true,
+            // the executor opens its writers with the configured policy
+            Op::Reopen { .. } => policy_on = cfg.merge_policy,
+            _ => {}
         }
         rep.count(&format!("op:{}", op.kind()), 1);
         let at_commit = matches!(op, Op::Commit | Op::PrepCommit { abort: false, .. });
